@@ -1348,6 +1348,11 @@ impl<'ctx> ByteCompiler<'ctx> {
         match expr {
             Expression::Literal(_) => true,
             Expression::Identifier(name) => {
+                // Inside a `with` statement the name may resolve to a property of the object,
+                // which can change between iterations.
+                if self.in_with {
+                    return false;
+                }
                 let name = self.resolve_identifier_expect(*name);
                 let binding = self.lexical_scope.get_identifier_reference(name.clone());
                 // Local bindings already use persistent registers directly
